@@ -16,6 +16,7 @@ binding: spec -> code.  Every CalcTrimOp transition TLC generates (all sizes 1..
 from __future__ import annotations
 
 import copy
+import itertools
 import json
 import random
 import shutil
@@ -96,7 +97,7 @@ def make_case(rng, style, ident, sizing, upscale, ha, va, alpha, W, H, iw, ih, *
         mode=rng.choice(["RGBA", "RGBA", "RGB", "LA", "P"]) if alpha != "#" else rng.choice(["RGBA", "RGB"]),
         pixstyle=rng.choice(["mixed", "mixed", "noise"]),
         fg_bg=rng.choice([[None, None], [[200, 200, 200], [0, 0, 0]]]),
-        sargs="", disguise=[0, 0],
+        sargs="", disguise=[0, 0], history=[],
     )
     if style != "block":
         c["pixstyle"] = "noise"  # strips of different lines must differ
@@ -106,6 +107,52 @@ def make_case(rng, style, ident, sizing, upscale, ha, va, alpha, W, H, iw, ih, *
     return c
 
 
+SWEEP_CELLS = [(10, 20), (7, 15), (3, 5)]
+SWEEP_MAX_H = 14
+
+
+def random_history(rng, W, H):
+    """1-2 renders of the same image object at other sizes (thumbnail widget / same widget)."""
+    out = []
+    for _ in range(rng.choice([1, 1, 2])):
+        w2 = rng.choice([x for x in range(1, MAXW + 3) if x != W])
+        h2 = rng.choice([0] + [y for y in range(1, MAXH + 3) if y != H])
+        out.append([rng.choice(["other", "same"]), w2, h2, rng.random() < 0.6])
+    return out
+
+
+def gen_flow_sweep(rng: random.Random, tier: str):
+    """Flow widgets at EVERY width from 1 to a bit beyond the image's original column count;
+    graphics sources whose pixel size is not a multiple of the cell size (the original size in
+    cells is a floor, the fitted size is scaled: rows() and render() must take the same
+    decision), several cell sizes, upscale on/off.  Only the untrimmed content is recorded."""
+    fixed = [((10, 20), (59, 130)), ((10, 20), (27, 95)), ((7, 15), (40, 100)), ((3, 5), (14, 33))]
+    n_random = 3 if tier == "quick" else 40
+    combos = list(fixed)
+    for _ in range(n_random):
+        cw, ch = rng.choice(SWEEP_CELLS)
+        k = rng.randrange(1, 7)
+        combos.append(((cw, ch), (cw * k + rng.choice([0] + list(range(1, cw)) * 2),
+                                  ch * rng.randrange(2, 8) + rng.randrange(ch))))
+    for (cell, px) in combos:
+        for style in ("kitty", "iterm2", "block"):
+            if style == "block":
+                if rng.random() < 0.5:
+                    continue
+                src = [max(1, px[0] // cell[0]), max(1, px[1] // cell[1]) * 2 - rng.choice([0, 1])]
+                ori_cols = src[0]
+            else:
+                src = list(px)
+                ori_cols = max(1, px[0] // cell[0])
+            ident = rng.choice(GFX_IDENTS[style])
+            for upscale in (False, True):
+                for W in range(1, ori_cols + 4):
+                    yield make_case(rng, style, ident, "flow", upscale, rng.choice(H_ALIGNS),
+                                    rng.choice(V_ALIGNS), rng.choice(["", "#"]), W, 0, 1, 1,
+                                    src=src, cell=list(cell), pixstyle="uniform", mode="RGB",
+                                    sargs=rng.choice(["", "L"]) if style != "block" else "")
+
+
 def gen_cases(rng: random.Random, tier: str):
     """Yields cases; the caller stops when its trim budget is used up (quick)."""
     # 1. the 3x3 alignments on a canvas with padding on every side (all 3x3 cut classes/axis)
@@ -113,6 +160,13 @@ def gen_cases(rng: random.Random, tier: str):
         for va in V_ALIGNS:
             yield make_case(rng, "block", rng.choice(GFX_IDENTS["block"]), "box", False, ha, va,
                             rng.choice(ALPHAS), 7, 5, 3, 2)
+    # 1b. histories: the canvas is kept while the same image object is rendered at other sizes
+    #     (second widget sharing the image / the same widget), then every trim of the kept canvas
+    for ha, va, hist in (("|", "-", [["other", 3, 2, True]]),
+                         ("<", "_", [["same", 9, 6, False], ["other", 3, 0, True]]),
+                         (">", "^", [["same", 2, 0, False]])):
+        yield make_case(rng, "block", rng.choice(GFX_IDENTS["block"]), "box", False, ha, va,
+                        rng.choice(ALPHAS), 8, 4, 4, 2, history=hist)
     # 2. graphics: every style/identity, box and flow
     for style in ("kitty", "iterm2"):
         for ident in GFX_IDENTS[style]:
@@ -140,9 +194,10 @@ def gen_cases(rng: random.Random, tier: str):
                                 for _ in range(3):
                                     W = rng.randrange(3, MAXW + 1)
                                     H = rng.randrange(2, MAXH + 1)
+                                    hist = random_history(rng, W, H) if rng.random() < 0.4 else []
                                     yield make_case(rng, "block", ident, sizing, upscale, ha,
                                                     va, alpha, W, H, rng.randrange(1, W + 2),
-                                                    rng.randrange(1, H + 2))
+                                                    rng.randrange(1, H + 2), history=hist)
         for style in ("kitty", "iterm2"):
             for ident in GFX_IDENTS[style]:
                 for sizing in ("box", "flow"):
@@ -152,10 +207,11 @@ def gen_cases(rng: random.Random, tier: str):
                                 for _ in range(2):
                                     W = rng.randrange(2, 8)
                                     H = rng.randrange(2, 6)
+                                    hist = random_history(rng, W, H) if rng.random() < 0.3 else []
                                     yield make_case(rng, style, ident, sizing, upscale, ha, va,
                                                     rng.choice(ALPHAS), W, H,
                                                     rng.randrange(1, W + 1),
-                                                    rng.randrange(1, H + 1))
+                                                    rng.randrange(1, H + 1), history=hist)
         return
     # 4. quick: random block canvases until the budget is used up
     while True:
@@ -164,18 +220,23 @@ def gen_cases(rng: random.Random, tier: str):
         yield make_case(rng, "block", rng.choice(GFX_IDENTS["block"]),
                         rng.choice(["box", "box", "flow"]), rng.random() < 0.4,
                         rng.choice(H_ALIGNS), rng.choice(V_ALIGNS), rng.choice(ALPHAS), W, H,
-                        rng.randrange(1, W + 2), rng.randrange(1, H + 2))
+                        rng.randrange(1, W + 2), rng.randrange(1, H + 2),
+                        history=random_history(rng, W, H) if rng.random() < 0.35 else [])
 
 
 def render_case(case):
-    """Real widget + real (finalized) canvas for ``case``; returns (widget, canvas, announced)."""
+    """Real widget + real (finalized) canvas for ``case``.
+
+    Returns (widget, canvas, announced, later): ``later()`` performs the case's *history* -
+    renders of the SAME image object at other sizes (through a second widget sharing the image,
+    or through the same widget) while the caller keeps holding the canvas."""
     from term_image.image import BlockImage, ITerm2Image, KittyImage
     from term_image.widget import UrwidImage, UrwidImageCanvas
 
     stubs.set_identity(case["ident"])
     fg, bg = case["fg_bg"]
-    stubs.set_term(size=(80, 30), cell=None if case["style"] == "block" else CELL,
-                   fg_bg=(fg and tuple(fg), bg and tuple(bg)))
+    cell = None if case["style"] == "block" else tuple(case.get("cell") or CELL)
+    stubs.set_term(size=(80, 30), cell=cell, fg_bg=(fg and tuple(fg), bg and tuple(bg)))
     rng = random.Random(case["seed"])
     img = imgs.make_image(rng, case["mode"], case["src"][0], case["src"][1], case["pixstyle"])
     cls = {"block": BlockImage, "kitty": KittyImage, "iterm2": ITerm2Image}[case["style"]]
@@ -194,7 +255,19 @@ def render_case(case):
     canvas = widget.render(size)  # already finalized by urwid (widget_info set)
     if not isinstance(canvas, UrwidImageCanvas):
         raise tlc.MachineryError(f"render() did not return an UrwidImageCanvas: {type(canvas)}")
-    return widget, canvas, announced
+    keep = []
+
+    def later():
+        for who, w2, h2, up2 in case.get("history", []):
+            if who == "other":  # e.g. a thumbnail of the same image object
+                other = UrwidImage(image, "<.^" + case["alpha"], upscale=bool(up2))
+                keep.append(other)
+            else:
+                other = widget
+            keep.append(other.render((w2, h2) if h2 else (w2,)))
+        return image.rendered_size
+
+    return widget, canvas, announced, later
 
 
 # ----------------------------------------------------------------------------------------
@@ -209,15 +282,29 @@ class RowTable:
         self.ids: dict[bytes, int] = {}
         self.rows: list[dict] = []
         self.payload_ids: dict = {}
+        self.malformed: dict[int, list] = {}  # row id -> sequences the lexer does not know
 
-    def add(self, data: bytes) -> int:
+    def add(self, data: bytes, reference: bool = False) -> int:
+        """``reference``: a row of the untrimmed content().  A sequence the lexer does not know
+        there is a machinery error (never guessed).  In a TRIMMED row - which can only be made of
+        pieces of the reference rows, blanks and SGR resets - it is passed to the spec as an
+        `unknown` token (Terminal.tla: "unsupported token") and reported as a malformed row."""
         rid = self.ids.get(data)
         if rid is not None:
+            if reference and rid in self.malformed:
+                raise tlc.MachineryError(
+                    f"lexer does not know {self.malformed[rid][:3]} in an untrimmed row {data[:80]!r}")
             return rid
-        stream = lexer.lex(data.decode("utf-8"), keep_payloads=True)
+        try:
+            text = data.decode("utf-8")
+        except UnicodeDecodeError:
+            if reference:
+                raise tlc.MachineryError(f"untrimmed row is not UTF-8: {data[:80]!r}")
+            text = data.decode("utf-8", errors="replace")  # U+FFFD prints as a foreign glyph
+        stream = lexer.lex(text, keep_payloads=True)
         unk = lexer.unknowns(stream)
-        if unk:
-            raise tlc.MachineryError(f"lexer does not know {unk[:3]} in a canvas row {data[:80]!r}")
+        if unk and reference:
+            raise tlc.MachineryError(f"lexer does not know {unk[:3]} in an untrimmed row {data[:80]!r}")
         payloads = stream.payloads  # type: ignore[attr-defined]
         gfx = []
         for g in stream.gfx:
@@ -244,6 +331,8 @@ class RowTable:
             else:
                 i += 1
         rid = len(self.rows) + 1  # 1-based: TLA+ sequence index
+        if unk:
+            self.malformed[rid] = unk
         self.ids[data] = rid
         self.rows.append({"toks": stream.toks, "gfx": gfx})
         return rid
@@ -367,11 +456,11 @@ def model_and_replay(rep: Report, res):
 # ----------------------------------------------------------------------------------------
 
 
-def collect(case, rects, table: RowTable, rep: Report):
+def collect(case, rects, table: RowTable, rep: Report, max_h: int = MAXH):
     """Render one case, record content() for ``rects`` (None = all); returns a canvas entry
     plus its traces (row ids refer to ``table``), or None if the case is unusable."""
     try:
-        widget, canvas, announced = render_case(case)
+        widget, canvas, announced, later = render_case(case)
     except tlc.MachineryError:
         raise
     except Exception as e:
@@ -382,12 +471,24 @@ def collect(case, rects, table: RowTable, rep: Report):
         )
         return None
     W, H = canvas.cols(), canvas.rows()
-    if W > MAXW or H > MAXH:
+    if W > MAXW or H > max_h:
         return "big"
-    full = [table.add(row_bytes(r)) for r in canvas.content()]
+    # what the canvas shows when it is rendered: the reference for every later trim
+    full = [table.add(row_bytes(r), reference=True) for r in canvas.content()]
     iw, ih = canvas._ti_image_size  # evidence classification only
+    try:
+        size_after = later()  # the image object is re-rendered elsewhere; the canvas is kept
+    except Exception as e:
+        rep.violation(
+            f"render-raises:{case['style']}:history:{type(e).__name__}",
+            f"re-rendering the image raised {type(e).__name__}: {e}; case={json.dumps(case)}",
+            {"case": case},
+        )
+        return None
     entry = {"W": W, "H": H, "kind": "text" if case["style"] == "block" else "gfx", "full": full}
     traces, meta = [], []
+    if rects == "full":
+        rects = [(0, 0, W, H)]
     for tl, tt, cols, rows in (all_rects(W, H) if rects is None else rects):
         rep.evaluations += 1
         try:
@@ -406,7 +507,8 @@ def collect(case, rects, table: RowTable, rep: Report):
         traces.append({"tl": tl, "tt": tt, "cols": cols, "rows": rows, "got": got,
                        "announced": announced if is_full else -1})
         meta.append((tl, tt, cols, rows))
-    geo = {"W": W, "H": H, "iw": iw, "ih": ih}
+    geo = {"W": W, "H": H, "iw": iw, "ih": ih,
+           "resized": bool(case.get("history")) and tuple(size_after) != (iw, ih)}
     return entry, traces, meta, geo
 
 
@@ -498,7 +600,7 @@ def main(rep: Report, replay: dict | None) -> None:
 def traces_part(rep: Report, replay: dict | None, t_start: float) -> None:
 
     rng = random.Random(rep.seed * 104729 + 17)
-    budget = 21000 if rep.tier == "quick" else 10**9
+    budget = 19500 if rep.tier == "quick" else 10**9
     batch_target = 2200
     batches, metas = [], []
     cur = None
@@ -511,7 +613,8 @@ def traces_part(rep: Report, replay: dict | None, t_start: float) -> None:
         sc = replay["scenario"]
         plan = [(sc["case"], [tuple(sc["rect"])] if "rect" in sc else None)]
     else:
-        plan = ((c, None) for c in gen_cases(rng, rep.tier))
+        plan = itertools.chain(((c, "full") for c in gen_flow_sweep(rng, rep.tier)),
+                               ((c, None) for c in gen_cases(rng, rep.tier)))
 
     ncanv = 0
     for case, rects in plan:
@@ -519,7 +622,8 @@ def traces_part(rep: Report, replay: dict | None, t_start: float) -> None:
             break
         if cur is None:
             cur = new_batch()
-        r = collect(case, rects, cur["_table"], rep)
+        r = collect(case, rects, cur["_table"], rep,
+                    max_h=MAXH if rects is None else SWEEP_MAX_H)
         if r is None:
             continue
         if r == "big":
@@ -576,11 +680,14 @@ def traces_part(rep: Report, replay: dict | None, t_start: float) -> None:
     classes = set()
     coloured_traces = 0
     seen = {"text-horizontal-cut-inside-image": 0, "gfx-vertical-trim-with-placements": 0,
-            "gfx-horizontal-trim": 0, "flow-canvas": 0, "box-canvas": 0}
+            "gfx-horizontal-trim": 0, "flow-canvas": 0, "box-canvas": 0,
+            "gfx-flow-at-original-columns-of-non-multiple-source": 0,
+            "text-cut-of-kept-canvas-after-image-resized": 0}
     for b, vs in zip(batches, verdict_lists):
-        for meta, v in zip(b["_meta"], vs):
+        for meta, v, trace in zip(b["_meta"], vs, b["traces"]):
             if meta is None:
                 continue
+            tr_got = trace["got"]
             case, (tl, tt, cols, rows), geo = meta
             rep.traces_validated += 1
             W, H, iw, ih = geo["W"], geo["H"], geo["iw"], geo["ih"]
@@ -588,6 +695,9 @@ def traces_part(rep: Report, replay: dict | None, t_start: float) -> None:
                 gfx = case["style"] != "block"
                 if (tl, tt, cols, rows) == (0, 0, W, H):
                     seen["flow-canvas" if case["sizing"] == "flow" else "box-canvas"] += 1
+                if (gfx and case["sizing"] == "flow" and not case["upscale"] and case.get("cell")
+                        and case["src"][0] % case["cell"][0] and W == case["src"][0] // case["cell"][0]):
+                    seen["gfx-flow-at-original-columns-of-non-multiple-source"] += 1
                 if gfx and (tl or cols != W):
                     seen["gfx-horizontal-trim"] += 1
                 if gfx and not (tl or cols != W) and rows < H and v["coloured"] > 0:
@@ -603,11 +713,22 @@ def traces_part(rep: Report, replay: dict | None, t_start: float) -> None:
                     classes.add((case["ha"], case["va"], hc, vc))
                     if not gfx and "image" in hc:
                         seen["text-horizontal-cut-inside-image"] += 1
+                        if geo["resized"]:
+                            seen["text-cut-of-kept-canvas-after-image-resized"] += 1
                     rep.distinct.add(key)
                 continue
-            if v["verdict"].startswith(("unsupported", "bad-trace")):
-                raise tlc.MachineryError(f"Trace_Canvas: {v['verdict']} for {case} rect {(tl, tt, cols, rows)}")
             clause = v["verdict"].split(":")[0]
+            if v["verdict"].startswith(("unsupported", "tight-unsupported")):
+                bad = [b["_table"].malformed[r] for r in tr_got if r in b["_table"].malformed]
+                if not bad:
+                    raise tlc.MachineryError(
+                        f"Trace_Canvas: {v['verdict']} for {case} rect {(tl, tt, cols, rows)}")
+                clause = "malformed-sequence"
+                v = dict(v, verdict=f"malformed-sequence: a trimmed row contains {bad[0][:2]}, which no "
+                                    "row of the untrimmed canvas contains (a control sequence was cut)")
+            elif v["verdict"].startswith("bad-trace"):
+                raise tlc.MachineryError(
+                    f"Trace_Canvas: {v['verdict']} for {case} rect {(tl, tt, cols, rows)}")
             trim = ("h" if tl or cols != W else "") + ("v" if tt or rows != H else "") or "untrimmed"
             api = "UrwidImage.rows" if clause == "flow-rows" else "UrwidImageCanvas.content"
             rep.violation(
